@@ -190,7 +190,7 @@ func wsBuildParents(root ast.Node) wsParents {
 	return p
 }
 
-func mentions(n ast.Node, name string) bool {
+func wsMentions(n ast.Node, name string) bool {
 	found := false
 	ast.Inspect(n, func(m ast.Node) bool {
 		if id, ok := m.(*ast.Ident); ok && id.Name == name {
@@ -243,7 +243,7 @@ func returnsVar(body ast.Node, v string, ft *ast.FuncType) bool {
 				}
 			}
 			for _, e := range r.Results {
-				if mentions(e, v) {
+				if wsMentions(e, v) {
 					ok = true
 				}
 			}
@@ -307,13 +307,13 @@ func breaksToReturn(p wsParents, ifs *ast.IfStmt, v string, ft *ast.FuncType) bo
 				return true
 			}
 			for _, e := range r.Results {
-				if mentions(e, v) {
+				if wsMentions(e, v) {
 					return true
 				}
 			}
 			return false
 		}
-		if mentions(s, v) {
+		if wsMentions(s, v) {
 			return false
 		}
 	}
@@ -355,7 +355,7 @@ func (a *wsAnalyzer) flows(p wsParents, at ast.Stmt, v string) (bool, string) {
 		}
 	}
 	for _, s := range list[idx+1:] {
-		if !mentions(s, v) {
+		if !wsMentions(s, v) {
 			if r, ok := s.(*ast.ReturnStmt); ok && len(r.Results) == 0 && hasNamedResult(ft, v) {
 				return true, "named-result-return"
 			}
